@@ -123,8 +123,30 @@ fail:
 	return -1;
 }
 
+/* GNU tar writes '%' and '=' inside an xattr key as "%25" and "%3D" */
+static void xattr_key_decode(char *str)
+{
+	char *out = str;
+
+	while (*str != '\0') {
+		if (str[0] == '%' && str[1] == '2' && str[2] == '5') {
+			*(out++) = '%';
+			str += 3;
+		} else if (str[0] == '%' && str[1] == '3' && str[2] == 'D') {
+			*(out++) = '=';
+			str += 3;
+		} else {
+			*(out++) = *(str++);
+		}
+	}
+
+	*out = '\0';
+}
+
 static int pax_xattr_schily(tar_header_decoded_t *out, sqfs_xattr_t *xattr)
 {
+	xattr_key_decode((char *)xattr->data);
+
 	xattr->next = out->xattr;
 	out->xattr = xattr;
 	return 0;
